@@ -1,6 +1,7 @@
 package govc
 
 import (
+	"go/constant"
 	"go/ast"
 	"go/types"
 	"strconv"
@@ -330,6 +331,72 @@ func init() {
 		sel := ast.Unparen(call.Fun).(*ast.SelectorExpr)
 		hw := fv.evalExpr(st, sel.X)
 		return []smt.Term{fv.hwaddrStr(st, hw)}
+	}
+
+	// fmt.Sprintf with a constant format made of literal text and %s verbs only, applied to string
+	// arguments: the concatenation of the pieces (left fold over the engine's str_cat symbol).
+	// Every other use keeps the generic treatment (no effect, unconstrained result).
+	libModels["fmt.Sprintf"] = func(fv *funcVerifier, st *State, call *ast.CallExpr, fn *types.Func) []smt.Term {
+		generic := func() []smt.Term {
+			fv.evalArgs(st, call, fn.Type().(*types.Signature))
+			return fv.freshResults(st, call, fn.Name())
+		}
+		if len(call.Args) == 0 || call.Ellipsis.IsValid() {
+			return generic()
+		}
+		tv, ok := fv.fi.Pkg.TypesInfo.Types[call.Args[0]]
+		if !ok || tv.Value == nil || tv.Value.Kind() != constant.String {
+			return generic()
+		}
+		format := constant.StringVal(tv.Value)
+		var pieces []string // literal pieces; a verb sits between pieces[i] and pieces[i+1]
+		cur := ""
+		for i := 0; i < len(format); i++ {
+			if format[i] != '%' {
+				cur += string(format[i])
+				continue
+			}
+			if i+1 >= len(format) || format[i+1] != 's' {
+				return generic()
+			}
+			pieces = append(pieces, cur)
+			cur = ""
+			i++
+		}
+		pieces = append(pieces, cur)
+		if len(pieces)-1 != len(call.Args)-1 {
+			return generic()
+		}
+		for _, a := range call.Args[1:] {
+			b, ok := fv.typeOf(a).Underlying().(*types.Basic)
+			if !ok || b.Info()&types.IsString == 0 {
+				return generic()
+			}
+			if _, named := fv.typeOf(a).(*types.Named); named {
+				return generic() // may have a String method / Error method
+			}
+		}
+		var acc smt.Term
+		have := false
+		add := func(t smt.Term) {
+			if !have {
+				acc, have = t, true
+				return
+			}
+			acc = fv.strConcat(st, acc, t)
+		}
+		for i, lit := range pieces {
+			if lit != "" {
+				add(fv.so.strConst(lit))
+			}
+			if i < len(call.Args)-1 {
+				add(fv.evalExpr(st, call.Args[1+i]))
+			}
+		}
+		if !have {
+			acc = fv.so.strConst("")
+		}
+		return []smt.Term{acc}
 	}
 
 	// hex.EncodeToString: deterministic function of the bytes (see hexStr)
